@@ -409,6 +409,17 @@ def source_variant():
     return kept[0][1], exact
 
 
+def keeps_user_gates():
+    """fixes/C03-4: the resolved circuit carries the user_gates of the original"""
+    from qutip_qip.circuit import QubitCircuit
+    qc = QubitCircuit(1, user_gates={"MYG": _user_not})
+    qc.add_gate("MYG", targets=[0])
+    try:
+        return "MYG" in qc.resolve_gates(["CNOT", "RX", "RY", "RZ", "MYG"]).user_gates
+    except Exception:
+        return False
+
+
 _VAR = {"v": None}
 
 
@@ -680,7 +691,10 @@ class C03(PropertyCheck):
         ncb = num_cbits(gs)
         ist, r, qc = impl_resolve(N, gs, b, ncb)
         names = [b[1]] if b[0] == "str" else list(b[1])
-        valid = (b in valid_bases())
+        # a user's gate named in the list form of the basis is passed through; the rest of the list is judged as usual
+        users = [n for n in names if n in USER_GATES] if b[0] == "list" else []
+        core = b if not users else ("list", [n for n in names if n not in USER_GATES])
+        valid = (core in valid_bases())
         if not valid:
             return False, "basis specification outside the property's class"
         if any(g.meas for g in gs):
@@ -688,17 +702,17 @@ class C03(PropertyCheck):
                 return True, "a circuit with a measurement was resolved (resolve_gates documents a refusal)"
             return False, f"circuit with a measurement: {ist}"
         b2 = [n for n in names if n in B2]
-        inexpressible = [g.name for g in gs if g.name not in RESOLVABLE or
+        inexpressible = [g.name for g in gs if (g.name not in RESOLVABLE and g.name not in users) or
                          (g.name in ("SQRTSWAP", "SQRTISWAP") and g.name not in b2)]
         if inexpressible:
             if ist == "ok":
-                bad = [g.name for g in r.gates if g.name not in allowed_names(b)]
+                bad = [g.name for g in r.gates if g.name not in allowed_names(b) | set(users)]
                 if bad:
                     return True, f"gates {inexpressible} are not expressible but the result contains {bad}"
             return False, f"verdict {ist}"
         if ist != "ok":
             return True, f"resolvable circuit refused: {ist}"
-        bad = [g.name for g in r.gates if g.name not in allowed_names(b)]
+        bad = [g.name for g in r.gates if g.name not in allowed_names(b) | set(users)]
         if bad:
             return True, f"result contains gates outside the basis: {sorted(set(bad))}"
         for g in r.gates:
@@ -715,7 +729,10 @@ class C03(PropertyCheck):
                     return True, "emitted gate object: " + d
         if N <= 6 and ncb == 0:
             U0 = qc.compute_unitary().full()
-            U1 = r.compute_unitary().full()
+            try:
+                U1 = r.compute_unitary().full()
+            except Exception as e:
+                return True, f"the resolved circuit cannot be evaluated: {type(e).__name__}: {e}"
             d = np.abs(U0 - U1).max()
             if d > 1e-9:
                 return True, f"unitary differs by {d:.3g} (global phase included)"
@@ -759,6 +776,12 @@ class C03(PropertyCheck):
                 if kc:
                     g.cond = ([0], 1)
                     yield {"N": N, "gates": [g.wit()], "basis": list(b)}
+        if keeps_user_gates():                  # otherwise: recorded class C03-4
+            for un in USER_GATES:
+                for b in valid_bases():
+                    if b[0] == "list":
+                        yield {"N": 2, "gates": [G("SNOT", [1], []).wit(), G(un, [0], []).wit(), G("CNOT", [0], [1]).wit()],
+                               "basis": ["list", list(b[1]) + [un]]}
         for name in OTHERS:
             nc, nt = decomp.SHAPE[name]
             for b in valid_bases():
